@@ -540,9 +540,12 @@ func c07Run(c *mc.Ctx) {
 	// (1) never-loaded instances
 	for _, kd := range kinds {
 		c07Hist(c, c07Case{Kind: kd, Fresh: true, All: th, Loads: []c07Load{{Via: "fail"}}}, alpha)
-		// the zero value ("not initialised", which the repository's own test loads into for Str2Str) was never loaded
-		// either: queries report every key absent.  Loading into a zero StrMap[V] is not claimed (it has no hash seed).
-		c07Hist(c, c07Case{Kind: kd, Ctor: "zero", Fresh: true, All: th}, alpha)
+		// the zero value of Str2Str ("not initialized", which the repository's own test loads into) was never loaded
+		// either: queries report every key absent.  Nothing is claimed for a zero StrMap[V]: it has no hash seed, cannot
+		// be loaded, and nothing in the repository suggests it is a supported state.
+		if kd == "str2str" {
+			c07Hist(c, c07Case{Kind: kd, Ctor: "zero", Fresh: true, All: th}, alpha)
+		}
 	}
 	// (2) all key sets of size 0..maxSet x every slot assignment x hash realisations
 	var nsets int64
